@@ -68,13 +68,21 @@ RULE = ("four strata. `combinations`: for every ranker, every batch of size 1..3
         "pools (ties) of dyadic and arbitrary finite floats incl. -0.0, denormals and huge magnitudes, float32 / "
         "float64 inputs, status arrays of every integer dtype, float32 / float64 archives (prefilled), real add "
         "feedback from archive.add, direction set through the public setter, plus the rejections (direction unset, "
-        "archive without compute_density, shape mismatches, missing novelty). `direction`: the two random-direction "
+        "archive without compute_density, shape mismatches, missing novelty); 30% of the rank calls carry NEAR-EQUAL "
+        "(not equal) keys -- relative differences 1e-13..1e-9, absolute 1e-14..1e-10, one ulp -- at magnitudes "
+        "1e-12..1e8 and both signs, for every float-keyed ranker; for the projection rankers the direction then has "
+        "power-of-two entries and the rows one arbitrary float on an axis, so that the projections are still exact; "
+        "calls are made positionally and by keyword, with arrays and with plain lists. `direction`: the two random-direction "
         "rankers under histories of reset / rank / setter calls, direction replayed from the seed (int seeds and "
         "SeedSequences, constructed directly or by a real EvolutionStrategyEmitter), power-of-two and general "
         "measure ranges, on archives with fixed bounds (GridArchive) and on archives whose bounds MOVE between "
         "resets (SlidingBoundariesArchive with small remap_frequency, ProximityArchive growing; entries added by "
         "add / add_single between the resets): after every reset the direction must be the replayed draw times "
-        "(upper_bounds - lower_bounds) read from the archive at that moment. `emitter`: a real "
+        "(upper_bounds - lower_bounds) read from the archive at that moment; 45% of the cases use measure ranges "
+        "between 1e-6 and 1e6, different per dimension (direction and projections at many magnitudes), with "
+        "axis-aligned power-of-two rows of the size of the ranges (exact) or arbitrary rows inside the ranges "
+        "(np.dot rounds: the reported projections must match the exact ones within 2^-40 relative and the order is "
+        "judged on exactly the floats the ranker reports). `emitter`: a real "
         "EvolutionStrategyEmitter + real archive (grid / sliding / proximity) driven through ask / add / rank / "
         "tell cycles with restarts (restart_rule no_improvement, 1, 2, basic; restarts detected through the public "
         "restart counter). A case is non-trivial when some ranked batch has two rows with the same key "
@@ -82,8 +90,11 @@ RULE = ("four strata. `combinations`: for every ranker, every batch of size 1..3
 PARTIAL = []
 ASSUMPTIONS = [
     "keys are finite floats (NaN / infinite objectives are outside the property's quantifier)",
-    "projections are compared exactly only where float arithmetic is exact (dyadic measures / directions, or "
-    "axis-aligned power-of-two measure rows under a drawn direction); other rank calls are skipped and counted",
+    "projections are compared exactly with the model where float arithmetic is exact (dyadic measures / directions, "
+    "power-of-two directions, or axis-aligned power-of-two measure rows under a drawn direction); where np.dot "
+    "rounds, the reported projections are compared with the exact ones within 2^-40 (float32: 2^-18) of "
+    "sum|m_j d_j|, the best-first order is judged on the reported floats themselves, and the key sequence is not "
+    "compared with the model's (near-ties may resolve differently)",
     "IEEE multiplication is correctly rounded: the drawn direction is compared with the correctly rounded exact "
     "product z*(upper-lower), after which the model is re-synchronised with the rounded value",
     "DensityRanker is exercised with a GridArchive subclass that adds compute_density (this tree has no "
@@ -115,7 +126,7 @@ ST, VAL, OBJ, MEAS, NOV, DEN = range(6)
 
 _DRV = [None]
 STATS = {"range-subtraction-rounded": 0, "resets-after-the-bounds-moved": 0, "resets-skipped-empty-archive": 0,
-         "rank-calls-compared": 0, "rank-calls-skipped-inexact-projection": 0, "rejections-compared": 0,
+         "rank-calls-compared": 0, "rank-calls-compared-rounded-projection": 0, "rank-calls-skipped-inexact-projection": 0, "rejections-compared": 0,
          "resets-replayed": 0, "resets-rounded-then-synchronised": 0, "restarts-inside-tell": 0,
          "tell-raised": 0}
 
@@ -317,7 +328,8 @@ class Run:
                 s = np.random.SeedSequence(case["seed"], spawn_key=(1,))
             else:
                 s = case["seed"]
-            self.ranker = cls(seed=s)
+            form = case.get("ctor", "kw")  # the forms a ranker can be constructed in
+            self.ranker = cls() if (s is None and form == "default") else cls(s) if form == "pos" else cls(seed=s)
             self.emitter = EvolutionStrategyEmitter(self.archive, x0=x0, sigma0=1.0, ranker="obj",
                                                     seed=case["seed"], batch_size=bs)
         self.drv.ask(f"new kind={self.kind}")
@@ -391,21 +403,25 @@ class Run:
 
     # ---- rank ------------------------------------------------------------
 
-    def rank(self, where, data, add_info, dens=None, has_density=True):
+    def rank(self, where, data, add_info, dens=None, has_density=True, kw=False):
         """one `rank` call on both sides; `dens` = what compute_density returns for this batch"""
         kind = self.kind
         dir0 = self.impl_dir()
+        rounded = False  # the float dot product rounds: projections are judged on the reported floats
         if kind in DIR and dir0 is not None and "measures" in data:
             meas0 = np.asarray(data["measures"])
-            if (not finite(dir0) or not exact_dot_ok(meas0, dir0) or
-                    (meas0.shape[0] == 0 and meas0.shape[1:] != dir0.shape)):
+            if not finite(dir0) or meas0.ndim != 2 or (meas0.shape[0] == 0 and meas0.shape[1:] != dir0.shape):
                 STATS["rank-calls-skipped-inexact-projection"] += 1
                 return "skipped"
+            rounded = not exact_dot_ok(meas0, dir0)
         before = (digest(data), digest(add_info), archive_digest(self.archive))
         err = None
         out = None
         try:
-            out = self.ranker.rank(self.emitter, self.archive, data, add_info)
+            if kw:
+                out = self.ranker.rank(emitter=self.emitter, archive=self.archive, data=data, add_info=add_info)
+            else:
+                out = self.ranker.rank(self.emitter, self.archive, data, add_info)
         except Exception as e:  # pylint: disable=broad-except
             err = next((v for k, v in ERRS.items() if isinstance(e, k)), "other:" + type(e).__name__)
         after = (digest(data), digest(add_info), archive_digest(self.archive))
@@ -476,22 +492,28 @@ class Run:
         if idx.shape != (n,) or idx.dtype.kind not in "iu" or sorted(idx.tolist()) != list(range(n)):
             return Failure("oracle", f"{where}: indices {idx.tolist()} are not a permutation of 0..{n-1}")
         idx = [int(i) for i in idx]
-        along = [keys[i] for i in idx]
+        shape = (n, 2) if kind in TWO else (n,)
+        if varr.shape != shape or varr.dtype.kind not in "fiu" or not finite(varr):
+            return Failure("oracle", f"{where}: ranking values have shape {varr.shape} / dtype {varr.dtype}, "
+                           f"expected finite numbers of shape {shape}")
+        got = [(fr(r[0]), fr(r[1])) for r in varr] if kind in TWO else [(0, fr(x)) for x in varr]
+        slack = [Fraction(0)] * n
+        if rounded:
+            # np.dot rounds here: the reported projection must be the exact one up to accumulated rounding
+            # (continuous relation), and the ORDER is judged on exactly the floats the ranker reports
+            bits = 18 if varr.dtype == np.float32 else 40
+            slack = [sum((abs(fr(m) * x) for m, x in zip(row, dd)), Fraction(0)) / 2**bits for row in meas]
+        bad = [i for i in range(n) if got[i][0] != keys[i][0] or abs(got[i][1] - keys[i][1]) > slack[i]]
+        if bad:
+            return Failure("oracle", f"{where}: ranking value at position {bad[0]} is {show_key(got[bad[0]])}, "
+                           f"the key of that solution is {show_key(keys[bad[0]])}")
+        along = [got[i] for i in idx]  # == keys (exact) unless `rounded`
         for t in range(n - 1):
             worse = along[t] > along[t + 1] if kind == "density" else along[t] < along[t + 1]
             if worse:
                 return Failure(
                     "oracle", f"{where}: not best-first: position {idx[t]} (key {show_key(along[t])}) is ranked before "
                     f"position {idx[t+1]} (key {show_key(along[t+1])}); indices {idx}")
-        shape = (n, 2) if kind in TWO else (n,)
-        if varr.shape != shape or varr.dtype.kind not in "fiu" or not finite(varr):
-            return Failure("oracle", f"{where}: ranking values have shape {varr.shape} / dtype {varr.dtype}, "
-                           f"expected finite numbers of shape {shape}")
-        got = [(fr(r[0]), fr(r[1])) for r in varr] if kind in TWO else [(0, fr(x)) for x in varr]
-        if got != keys:
-            bad = next(i for i in range(n) if got[i] != keys[i])
-            return Failure("oracle", f"{where}: ranking value at position {bad} is {show_key(got[bad])}, "
-                           f"the key of that solution is {show_key(keys[bad])}")
 
         # -- correspondence
         if "err" in resp:
@@ -502,11 +524,17 @@ class Run:
                                                      for t in resp["vals"].split(",")]
         else:
             mkeys = [(0, x) for x in unql(resp["vals"])]
-        if mkeys != got:
+        if len(mkeys) != n or any(mkeys[i][0] != got[i][0] or abs(mkeys[i][1] - got[i][1]) > slack[i]
+                                  for i in range(n)):
             return Failure("corr", f"{where}: ranking values impl={[show_key(k) for k in got]} "
                            f"model={[show_key(k) for k in mkeys]}")
         if sorted(midx) != list(range(n)):
             return Failure("corr", f"{where}: model indices {midx} are not a permutation")
+        if rounded:
+            # the model ranks the exact projections, the implementation the rounded ones: near-ties may
+            # legitimately resolve differently, so the key sequences are not compared here
+            STATS["rank-calls-compared-rounded-projection"] += 1
+            return self.compare_dir(where)
         if [mkeys[i] for i in idx] != [mkeys[i] for i in midx]:
             return Failure("corr", f"{where}: key sequence along impl ranking {idx} differs from the one along the "
                            f"model ranking {midx}")
@@ -579,7 +607,10 @@ def _run_case(case):
                 STATS["resets-skipped-empty-archive"] += 1
                 continue
             before = run.impl_dir()
-            run.ranker.reset(run.emitter, archive)
+            if op.get("kw"):
+                run.ranker.reset(emitter=run.emitter, archive=archive)
+            else:
+                run.ranker.reset(run.emitter, archive)
             f = run.after_reset(where, before)
             if f:
                 return f
@@ -612,7 +643,11 @@ def _run_case(case):
                 info["status"] = info["status"][:-1]
             elif cut == "novelty":
                 del info["novelty"]
-            f = run.rank(where, data, info, dens=dens, has_density=has_density)
+            if op.get("aslist") and len(rows):
+                # plain (nested) lists instead of arrays, as in the library's own tests
+                data = {k: v.tolist() for k, v in data.items()}
+                info = {k: v.tolist() for k, v in info.items()}
+            f = run.rank(where, data, info, dens=dens, has_density=has_density, kw=bool(op.get("kw")))
             if isinstance(f, Failure):
                 return f
         elif name in ("addrank", "gen"):
@@ -672,6 +707,70 @@ RANGES_POW2 = [[0.0, 1.0], [-1.0, 1.0], [0.5, 1.0], [-2.0, 2.0], [0.0, 4.0], [-0
 RANGES_ANY = [[0.0, 3.0], [-1.0, 0.5], [0.25, 1.0], [-5.0, 5.0], [0.0, 1.25], [-3.0, -0.5]]
 
 
+NEAR_BASES = [0.3, -0.3, 1.0, -1.0, 0.1, 7.0, -2.5e-7, 1e-9, 3e-10, -4e-10, 5e-6, 1e-3, 123.456, -98765.4321,
+              7e5, -1e6, 1e8, 2e-12]
+
+
+def near_pool(rng):
+    """keys that differ by tiny amounts without being equal: relative 1e-12..1e-9, absolute 1e-13..1e-10,
+    one ulp -- at many magnitudes and both signs (plus the odd exact tie)"""
+    import math
+    base = rng.choice(NEAR_BASES) if rng.random() < 0.7 else \
+        rng.choice([-1, 1]) * rng.uniform(1, 10) * 10.0**rng.randint(-10, 8)
+    out = [base]
+    for _ in range(rng.choice([1, 2, 3, 4])):
+        r = rng.random()
+        if r < 0.4:
+            out.append(base * (1 + rng.choice([-1, 1]) * rng.uniform(1, 10) * 10.0**rng.randint(-13, -10)))
+        elif r < 0.8:
+            out.append(base + rng.choice([-1, 1]) * rng.uniform(1, 10) * 10.0**rng.randint(-14, -11))
+        elif r < 0.9:
+            out.append(math.nextafter(base, rng.choice([-math.inf, math.inf])))
+        else:
+            out.append(base)
+    return out
+
+
+def pow2_dir(rng, d, single=False):
+    """direction whose entries are 0 or signed powers of two: m * entry is exact for EVERY float m"""
+    v = [0.0] * d
+    hot = [rng.randrange(d)] if single else [j for j in range(d) if rng.random() < 0.7] or [rng.randrange(d)]
+    for j in hot:
+        v[j] = rng.choice([-1, 1]) * 2.0**rng.randint(-3, 3)
+    return v
+
+
+def near_rows(rng, n, d, direction):
+    """rows whose projections onto `direction` (from pow2_dir) are near-equal and computed exactly:
+    one arbitrary float on an axis the direction sees; where the direction is 0 anything goes"""
+    rows = gen_rows(rng, n, d, False, False, near=True)
+    pool = near_pool(rng)
+    hot = [j for j in range(d) if direction[j] != 0.0]
+    for r in rows:
+        m = [0.0 if direction[j] != 0.0 else rng.choice([0.0, rng.gauss(0, 1), 0.7]) for j in range(d)]
+        j = rng.choice(hot)
+        m[j] = rng.choice(pool) / abs(direction[j]) if rng.random() < 0.5 else rng.choice(pool)
+        r[MEAS] = m
+    return rows
+
+
+def wide_ranges(rng, d):
+    """measure ranges from 1e-6 to 1e6, different per dimension, zero-based / symmetric / offset"""
+    out = []
+    for _ in range(d):
+        w = rng.choice([1.0, 2.0, 5.0, 2.5, 1.0]) * 10.0**rng.randint(-6, 6)
+        r = rng.random()
+        lo = 0.0 if r < 0.5 else -w if r < 0.7 else -w / 2 if r < 0.85 else w
+        out.append([lo, lo + w if lo != w else 3 * w])
+    return out
+
+
+def scales_of(ranges):
+    """per dimension the largest power of two not above the width of the range"""
+    import math
+    return [2.0**math.floor(math.log2(hi - lo)) for lo, hi in ranges]
+
+
 def value_pool(rng, wild):
     k = rng.choice([1, 2, 2, 3, 4, 6])
     src = DYADIC + (WILD + [rng.gauss(0, 1) for _ in range(3)] if wild else [])
@@ -682,17 +781,25 @@ def grid_row(rng, d):
     return [rng.choice([-2.0, -1.0, -0.5, 0.0, 0.0, 0.25, 0.5, 1.0, 1.0, 1.5, 2.0]) for _ in range(d)]
 
 
-def axis_row(rng, d):
-    """at most one non-zero entry, a signed power of two: exact under any direction"""
+def axis_row(rng, d, scales=None):
+    """at most one non-zero entry, a signed power of two (of the size of that dimension's range):
+    exact under any direction"""
     row = [0.0] * d
     if rng.random() < 0.85:
-        row[rng.randrange(d)] = rng.choice([-1, 1]) * 2.0**rng.randint(-2, 2)
+        j = rng.randrange(d)
+        row[j] = rng.choice([-1, 1]) * 2.0**rng.randint(-2, 2) * (scales[j] if scales else 1.0)
     return row
 
 
-def gen_rows(rng, n, d, wild, axis):
-    pools = [value_pool(rng, wild) for _ in range(4)]
-    mk = axis_row if axis else grid_row
+def free_row(rng, d, scales=None):
+    """arbitrary floats of the size of the ranges: the projection rounds (judged on the reported floats)"""
+    return [rng.uniform(-1, 1) * (scales[j] if scales else 1.0) for j in range(d)]
+
+
+def gen_rows(rng, n, d, wild, axis, near=False, scales=None, free=False):
+    pools = [near_pool(rng) if near else value_pool(rng, wild) for _ in range(4)]
+    base = free_row if free else axis_row if axis else grid_row
+    mk = (lambda r, k: base(r, k, scales)) if (free or axis) else base
     mpool = [mk(rng, d) for _ in range(rng.choice([1, 2, 3, 5, 8]))]
     stpool = rng.choice([[0, 1, 2], [0, 1, 2], [0, 1], [1, 2], [2], [0, 2], [0]])
     rows = []
@@ -755,9 +862,25 @@ def gen_batches(rng):
             ops.append({"op": "addrank", "rows": gen_rows(rng, max(n, 1), d, False, False)})
             continue
         fdt = rng.choice(FLOAT_DTYPES)
+        if rng.random() < 0.3:
+            # near-equal (not equal) keys at many magnitudes, both signs; projections computed exactly
+            fdt = rng.choice(["float64", "float64", "float64", "float32"])
+            if kind in DIR:
+                direction = pow2_dir(rng, d, single=rng.random() < 0.4)
+                ops.append({"op": "setdir", "d": direction, "dt": "float64"})
+                have_dir = True
+                rows = near_rows(rng, max(n, 2), d, direction)
+            else:
+                rows = gen_rows(rng, max(n, 2), d, False, False, near=True)
+            ops.append({"op": "rank", "rows": rows, "sdt": rng.choice(INT_DTYPES), "fdt": fdt, "mdt": fdt,
+                        "denlist": rng.random() < 0.2, "kw": rng.random() < 0.3, "aslist": rng.random() < 0.15,
+                        "near": True})
+            if kind in DIR:
+                have_dir = False  # the next plain op installs a dyadic direction again
+            continue
         op = {"op": "rank", "rows": gen_rows(rng, n, d, kind not in DIR and rng.random() < 0.5, False),
               "sdt": rng.choice(INT_DTYPES), "fdt": fdt, "mdt": rng.choice([fdt, "float64"]),
-              "denlist": rng.random() < 0.2}
+              "denlist": rng.random() < 0.2, "kw": rng.random() < 0.3, "aslist": rng.random() < 0.1}
         r = rng.random()
         if r < 0.04:
             op["cut"] = "status"
@@ -785,19 +908,30 @@ def moving_archive(rng, case, d):
         case["remap"] = rng.choice([1, 2, 3, 5])
         case["buffer"] = rng.choice([2, 4, 8])
         case["dims"] = [rng.choice([2, 3, 5]) for _ in range(d)]
-        case["prefill"] = wide_rows(rng, rng.choice([0, 0, 1, 3]), d)
+        case["prefill"] = wide_rows(rng, rng.choice([0, 0, 1, 3]), d, case.get("scales"))
     else:
         case["nov_thr"] = rng.choice([0.0, 0.25, 0.5])
-        case["prefill"] = wide_rows(rng, rng.randint(1, 4), d)
+        case["prefill"] = wide_rows(rng, rng.randint(1, 4), d, case.get("scales"))
 
 
-def wide_rows(rng, n, d):
+def wide_rows(rng, n, d, scales=None):
     """rows whose (dyadic) measures spread well beyond the initial ranges, so that bounds really move"""
     rows = gen_rows(rng, n, d, False, False)
     scale = rng.choice([0.25, 1.0, 1.0, 4.0])
     for r in rows:
-        r[MEAS] = [scale * rng.choice([-3.0, -2.0, -1.0, -0.5, 0.0, 0.25, 0.5, 1.0, 1.5, 2.0, 5.0]) for _ in range(d)]
+        r[MEAS] = [scale * (scales[j] if scales else 1.0) *
+                   rng.choice([-3.0, -2.0, -1.0, -0.5, 0.0, 0.25, 0.5, 1.0, 1.5, 2.0, 5.0]) for j in range(d)]
     return rows
+
+
+def maybe_wide(rng, case, p):
+    """with probability p: measure ranges between 1e-6 and 1e6, different per dimension, so that the drawn
+    direction and the projections live at many magnitudes"""
+    if rng.random() < p:
+        case["ranges"] = wide_ranges(rng, len(case["ranges"]))
+        case["scales"] = scales_of(case["ranges"])
+        case["wide"] = True
+    return case.get("scales")
 
 
 def gen_direction(rng):
@@ -805,9 +939,11 @@ def gen_direction(rng):
     case = base_case(rng, kind)
     case["archive"] = rng.choice(["grid", "density"])
     d = len(case["ranges"])
+    scales = maybe_wide(rng, case, 0.45)
     moving = rng.random() < 0.6
     if moving:
         moving_archive(rng, case, d)
+    case["ctor"] = rng.choice(["kw", "pos", "default"])
     case["seedkind"] = rng.choice(["int", "int", "seq", "none"] if rng.random() < 0.5 else ["int", "seq"])
     case["via"] = rng.choice(["direct", "emitter"]) if case["seedkind"] == "int" else "direct"
     ops = []
@@ -818,17 +954,22 @@ def gen_direction(rng):
         r = rng.random()
         if moving and rng.random() < 0.35:
             # entries arrive between two resets: the archive's bounds move (remap / growth)
-            ops.append({"op": "fill", "rows": wide_rows(rng, rng.randint(1, 5), d), "single": rng.random() < 0.5})
+            ops.append({"op": "fill", "rows": wide_rows(rng, rng.randint(1, 5), d, scales),
+                        "single": rng.random() < 0.5})
         if r < 0.35:
-            ops.append({"op": "reset"})
+            ops.append({"op": "reset", "kw": rng.random() < 0.3})
             real = True
         elif r < 0.45:
             ops.append({"op": "setdir", "d": dyadic_dir(rng, d), "dt": rng.choice(FLOAT_DTYPES)})
             real = False
         else:
             fdt = rng.choice(FLOAT_DTYPES)
-            ops.append({"op": "rank", "rows": gen_rows(rng, batch_size(rng), d, False, real),
-                        "sdt": rng.choice(INT_DTYPES), "fdt": fdt, "mdt": fdt})
+            # under a drawn direction: axis-aligned power-of-two rows of the size of the ranges (exact
+            # projections), or arbitrary rows inside the ranges (rounded projections, judged on the reported floats)
+            free = real and rng.random() < 0.3
+            ops.append({"op": "rank", "rows": gen_rows(rng, batch_size(rng), d, False, real, scales=scales, free=free),
+                        "sdt": rng.choice(INT_DTYPES), "fdt": fdt, "mdt": "float64" if scales else fdt,
+                        "kw": rng.random() < 0.3})
     case["ops"] = ops
     return case
 
@@ -840,6 +981,7 @@ def gen_emitter(rng, adts=tuple(FLOAT_DTYPES)):
     case["via"] = "emitter"
     case["archive"] = {"nov": "proximity", "density": "density"}.get(kind, "grid")
     d = len(case["ranges"])
+    scales = maybe_wide(rng, case, 0.45) if kind in DIR else None
     if kind in DIR and rng.random() < 0.7:
         # restarts (= ranker resets) on an archive whose bounds have moved since the previous reset
         moving_archive(rng, case, d)
@@ -848,7 +990,8 @@ def gen_emitter(rng, adts=tuple(FLOAT_DTYPES)):
     ops = []
     floor = 0.0
     for _ in range(rng.randint(2, 7)):
-        rows = gen_rows(rng, bs, d, False, kind in DIR)
+        rows = gen_rows(rng, bs, d, False, kind in DIR, scales=scales, free=kind in DIR and rng.random() < 0.3,
+                        near=kind not in DIR and rng.random() < 0.2)
         if rng.random() < 0.35:
             # a batch that cannot improve anything: the emitter restarts and resets its ranker
             floor -= 8.0
@@ -923,6 +1066,12 @@ def features(ctx, case):
             ctx.count("float-dtype:" + op["fdt"])
             if op.get("cut"):
                 ctx.count("rejection:" + op["cut"])
+            if op.get("near"):
+                ctx.count("rank-calls-with-near-equal-keys")
+            if op.get("kw") or op.get("aslist"):
+                ctx.count("rank-calls-keyword-or-list-form")
+            if case.get("wide"):
+                ctx.count("rank-calls-on-wide-range-archives")
         elif op["op"] in ("reset", "setdir", "addrank", "gen"):
             ctx.count(op["op"] + "-ops")
 
